@@ -41,7 +41,8 @@ def main(argv):
         return 2
     try:
         if replay:
-            from vlib import core
+            from vlib import core, env
+            env.setup_paths(pdks=True)  # (before anything imports hdl21: the tree under test, not an installed copy)
             with open(replay) as f:
                 rc = json.load(f)
             case = rc.get("case", rc)
